@@ -45,7 +45,7 @@ def run(res, ctx):
     if "depth" in ctx["opts"]:
         extra = ["--depth", ctx["opts"]["depth"]]
     only = ctx["opts"].get("part")
-    dl = dict(deadline=110 if quick else 1100, timeout=600 if quick else 2400)
+    dl = dict(deadline=300 if quick else 1500, timeout=900 if quick else 2700)
     jobs = []
     for part, shards in PARTS:
         if only and part != only:
